@@ -266,6 +266,33 @@ func init() {
 	regV(apiPkg+".Same", func(m *Machine, g *Goroutine, a []Value) Value {
 		return m.snapSame(a[0], a[1])
 	})
+	regV(apiPkg+".Param", func(m *Machine, g *Goroutine, a []Value) Value {
+		if v, ok := m.cfg.Params[cstr(a[0], "Param")]; ok {
+			return mkInt(int64(v))
+		}
+		return a[1]
+	})
+	regV(apiPkg+".StrAtom", func(m *Machine, g *Goroutine, a []Value) Value {
+		name := m.uniqueName(cstr(a[0], "StrAtom"))
+		t := mkVar(name, SAtom, nil, nil)
+		m.declare(t)
+		l := mkVar(name+"!len", SInt, big.NewInt(0), big.NewInt(1<<16))
+		m.declare(l)
+		return StrVal{atom: t, alen: l}
+	})
+	regV(apiPkg+".StrBytes", func(m *Machine, g *Goroutine, a []Value) Value {
+		name := m.uniqueName(cstr(a[0], "StrBytes"))
+		n := int(cint(a[1], "StrBytes n"))
+		bs := make([]*Term, n)
+		for i := range bs {
+			bs[i] = mkVar(fmt.Sprintf("%s[%d]", name, i), SInt, big.NewInt(0), big.NewInt(255))
+			m.declare(bs[i])
+		}
+		if n == 0 {
+			return StrVal{}
+		}
+		return StrVal{sym: bs}
+	})
 	regV(apiPkg+".IsSymbolic", func(m *Machine, g *Goroutine, a []Value) Value { return tTrue })
 
 	// ---------- math/big ----------
